@@ -25,8 +25,10 @@ T_ATTRS = ['name']
 ENT_ATTRS = {'P': P_ATTRS, 'K': K_ATTRS, 'T': T_ATTRS}
 VOLATILE = {('P', 'v')}
 COLLS = [('P', 'kids', 'K'), ('P', 'tags', 'T'), ('T', 'ps', 'P')]
-O2M = {('P', 'kids')}
-PKS = {'P': [1, 2, 3], 'K': [1, 2, 3, 4, 5], 'T': [1, 2, 3]}
+O2M = {('P', 'kids'), ('Q', 'kids2')}
+ALL_COLLS = COLLS + [('Q', 'kids2', 'K')]       # COLLS stays as it is: stored cases index it modulo its length
+REFS = {'p': ('P', 'kids'), 'q': ('Q', 'kids2')}
+PKS = {'P': [1, 2, 3], 'K': [1, 2, 3, 4, 5], 'T': [1, 2, 3], 'Q': [1, 2]}
 STRS = ['a', 'b', 'c', 'd']
 FLOATS = [0.5, 1.5, 2.25, 3.0]
 
@@ -43,17 +45,22 @@ def define(db):
         kids = Set('K')
         tags = Set('T')
 
+    class Q(db.Entity):          # a second, independent owner of children
+        id = PrimaryKey(int)
+        kids2 = Set('K')
+
     class K(db.Entity):
         id = PrimaryKey(int)
         p = Optional(P)
         n = Required(int)
         s = Required(str)
+        q = Optional(Q)          # second to-one reference, declared (and therefore applied on reload) after p
 
     class T(db.Entity):
         id = PrimaryKey(int)
         name = Required(str)
         ps = Set(P)
-    return {'P': P, 'K': K, 'T': T}
+    return {'P': P, 'K': K, 'T': T, 'Q': Q}
 
 
 class Env(object):
@@ -90,6 +97,7 @@ def reset_data(world, data):
     mon.execute('BEGIN IMMEDIATE')
     mon.execute('DELETE FROM "%s"' % lt)
     mon.execute('DELETE FROM "K"')
+    mon.execute('DELETE FROM "Q"')
     mon.execute('DELETE FROM "T"')
     mon.execute('DELETE FROM "P"')
     for i, pk in enumerate(PKS['P']):
@@ -97,10 +105,14 @@ def reset_data(world, data):
                     [pk, STRS[_val(vals, i % 2, 4)], _val(vals, 2 + i % 2, 4), FLOATS[_val(vals, 4 + i % 2, 4)], _val(vals, 6 + i % 2, 4)])
     for i, pk in enumerate(PKS['T']):
         mon.execute('INSERT INTO "T"("id", "name") VALUES (?, ?)', [pk, STRS[_val(vals, 8 + i, 4)]])
+    for pk in PKS['Q']:
+        mon.execute('INSERT INTO "Q"("id") VALUES (?)', [pk])
+    kq = data.get('kq', [])            # optional: second owner per child (absent = NULL)
     for i, pk in enumerate(PKS['K'][:4]):
         par = [1, 1, 2, None, 3, 3][(kids[i] if i < len(kids) else 0) % 6]
-        mon.execute('INSERT INTO "K"("id", "p", "n", "s") VALUES (?, ?, ?, ?)',
-                    [pk, par, _val(vals, 11 + i, 4), STRS[_val(vals, 15 + i, 4)]])
+        par2 = [None, 1, 2][kq[i] % 3] if i < len(kq) else None
+        mon.execute('INSERT INTO "K"("id", "p", "n", "s", "q") VALUES (?, ?, ?, ?, ?)',
+                    [pk, par, _val(vals, 11 + i, 4), STRS[_val(vals, 15 + i, 4)], par2])
     for i, ppk in enumerate(PKS['P']):
         mask = links[i] if i < len(links) else 0
         for j, tpk in enumerate(PKS['T']):
@@ -118,8 +130,8 @@ def snapshot_fn(world):
         snap = {'P': {}, 'K': {}, 'T': {}, 'links': set()}
         for row in mon.execute('SELECT "id", "name", "n", "f", "v" FROM "P"').fetchall():
             snap['P'][row[0]] = {'name': row[1], 'n': row[2], 'f': row[3], 'v': row[4]}
-        for row in mon.execute('SELECT "id", "p", "n", "s" FROM "K"').fetchall():
-            snap['K'][row[0]] = {'p': row[1], 'n': row[2], 's': row[3]}
+        for row in mon.execute('SELECT "id", "p", "n", "s", "q" FROM "K"').fetchall():
+            snap['K'][row[0]] = {'p': row[1], 'n': row[2], 's': row[3], 'q': row[4]}
         for row in mon.execute('SELECT "id", "name" FROM "T"').fetchall():
             snap['T'][row[0]] = {'name': row[1]}
         for row in mon.execute('SELECT "%s", "%s" FROM "%s"' % (pcol, tcol, lt)).fetchall():
@@ -138,6 +150,8 @@ def committed_value(snap, key):
     ent, pk, coll = key[1], key[2], key[3]
     if (ent, coll) == ('P', 'kids'):
         items = sorted(k for k, row in snap['K'].items() if row['p'] == pk)
+    elif (ent, coll) == ('Q', 'kids2'):
+        items = sorted(k for k, row in snap['K'].items() if row['q'] == pk)
     elif (ent, coll) == ('P', 'tags'):
         items = sorted(t for (p, t) in snap['links'] if p == pk)
     else:
@@ -150,7 +164,7 @@ def committed_value(snap, key):
 # ---------------------------------------------------------------------------------------------------------------------
 
 READER_OPS = ['attr', 'attr', 'len', 'iter', 'count', 'in', 'empty', 'bool', 'cload', 'query', 'query', 'todict', 'reread', 'load',
-              'wattr', 'commit', 'attr', 'query']
+              'wattr', 'commit', 'attr', 'query', 'q']
 WRITABLE = {'P': ['name', 'n', 'f', 'v'], 'K': ['n', 's'], 'T': ['name']}      # scalar attributes the reading session may assign
 QUERY_KINDS = ['all_K', 'all_P', 'all_T', 'kids_of', 'coll_select', 'prefetch_kids', 'prefetch_tags', 'prefetch_p', 'pairs',
                'get_K', 'index_K', 'kids_n', 'tags_of', 'prefetch_ps',
@@ -181,7 +195,7 @@ def _remember(st, obj):
 def _observe_attr(st, ent, pk, attr, out):
     o = _get(st, ent, pk)
     v = getattr(o, attr)
-    if attr == 'p':
+    if attr in ('p', 'q'):
         _remember(st, v)
     out.append([['a', ent, pk, attr], _jsonval(v)])
 
@@ -203,7 +217,7 @@ def _observe_coll(st, how, ent, pk, coll, out, item=None):
     elif how == 'bool':
         out.append([['bool', ent, pk, coll], bool(c)])
     elif how == 'in':
-        target = [x for x in COLLS if (x[0], x[1]) == (ent, coll)][0][2]
+        target = [x for x in ALL_COLLS if (x[0], x[1]) == (ent, coll)][0][2]
         it = _get(st, target, item)
         out.append([['in', ent, pk, coll, item], it in c])
     elif how == 'cload':
@@ -239,6 +253,14 @@ def make_reader_exec(case):
             ent = ['P', 'K', 'T'][op[1] % 3]
             pk = PKS[ent][op[2] % len(PKS[ent])]
             _get(st, ent, pk).load()
+        elif name == 'q':
+            # the second reference: ['q', how, index, item]  how: 0 read K.q, 1 iterate Q.kids2, 2 len, 3 in, 4 count
+            how = op[1] % 5
+            if how == 0:
+                _observe_attr(st, 'K', PKS['K'][op[2] % 4], 'q', out)
+            else:
+                _observe_coll(st, ['iter', 'len', 'in', 'count'][how - 1], 'Q', PKS['Q'][op[2] % 2], 'kids2', out,
+                              PKS['K'][(op[3] if len(op) > 3 else 0) % 4])
         elif name == 'wattr':
             # the session assigns a scalar attribute itself: from now on that value is what it has observed
             ent = ['P', 'K', 'T'][op[1] % 3]
@@ -331,13 +353,13 @@ def make_reader_exec(case):
     return exec_op
 
 
-WRITER_OPS = ['setp', 'setk', 'move', 'move', 'delk', 'delp', 'delt', 'newk', 'tag', 'untag', 'sett', 'commit', 'setk', 'untag']
+WRITER_OPS = ['setp', 'setk', 'move', 'move', 'delk', 'delp', 'delt', 'newk', 'tag', 'untag', 'sett', 'commit', 'setk', 'untag', 'move2']
 
 
 def make_writer_exec(case):
     def exec_op(st, op):
         from pony.orm import commit
-        P, K, T = st.classes['P'], st.classes['K'], st.classes['T']
+        P, K, T, Q = st.classes['P'], st.classes['K'], st.classes['T'], st.classes['Q']
         name = op[0]
         rec = {'op': name, 'obs': []}
         a, b, c = (list(op[1:]) + [0, 0, 0])[:3]
@@ -357,6 +379,10 @@ def make_writer_exec(case):
         elif name == 'move':
             o = K[PKS['K'][a % 4]]
             o.p = [P.get(id=1), P.get(id=2), None, P.get(id=3)][b % 4]
+        elif name == 'move2':            # both references of one child change in the same commit: ['move2', child, p index, q index]
+            o = K[PKS['K'][a % 4]]
+            o.p = [P.get(id=1), P.get(id=2), None, P.get(id=3)][b % 4]
+            o.q = [Q.get(id=1), Q.get(id=2), None][c % 3]
         elif name == 'delk':
             K[PKS['K'][a % 4]].delete()
         elif name == 'delp':
@@ -456,8 +482,8 @@ def judge(case, events, states):
     first_seen_step = {}  # observation key (tuple) -> step of the first observation
     reobserved = []       # (key, step)
     own_written = {}      # key -> step of the session's own last assignment
-    pinned_p = {}         # child pk -> (step, parent pk or None): the session has seen (read) the child's reference
-    kids_seen = {}        # parent pk -> (step, set of child pks): the session has iterated the parent's collection
+    pinned_p = {}         # reference name -> child pk -> (step, owner pk or None): the session has seen the child's reference
+    kids_seen = {}        # reference name -> owner pk -> (step, set of child pks): the session has iterated the collection
     reader_fail = None
 
     def fail(tag, msg):
@@ -502,30 +528,34 @@ def judge(case, events, states):
         for key, val in ev['value']['obs']:
             tkey = tuple(key)
             # ---- both ends of the one-to-many relationship, as shown to this session, must agree
-            if key[0] == 'a' and key[1] == 'K' and key[3] == 'p':
-                for ppk, (cstep, items) in sorted(kids_seen.items()):
+            if key[0] == 'a' and key[1] == 'K' and key[3] in REFS:
+                ref = key[3]
+                oent, ocoll = REFS[ref]
+                for ppk, (cstep, items) in sorted(kids_seen.setdefault(ref, {}).items()):
                     if (key[2] in items) != (val == ppk):
-                        fail('relationship-ends-disagree', 'K[%d].p reads %r in step #%d, but iterating P[%d].kids in step #%d gave %s'
-                             % (key[2], val, ev['step'], ppk, cstep, sorted(items)))
-                pinned_p.setdefault(key[2], (ev['step'], val))
-            elif key[0] in ('set', 'in') and (key[1], key[3]) == ('P', 'kids'):
+                        fail('relationship-ends-disagree', 'K[%d].%s reads %r in step #%d, but iterating %s[%d].%s in step #%d gave %s'
+                             % (key[2], ref, val, ev['step'], oent, ppk, ocoll, cstep, sorted(items)))
+                pinned_p.setdefault(ref, {}).setdefault(key[2], (ev['step'], val))
+            elif key[0] in ('set', 'in') and (key[1], key[3]) in O2M:
+                ref = [r for r, oc in REFS.items() if oc == (key[1], key[3])][0]
+                oent, ocoll = REFS[ref]
                 ppk = key[2]
-                for kpk, (pstep, par) in sorted(pinned_p.items()):
+                for kpk, (pstep, par) in sorted(pinned_p.setdefault(ref, {}).items()):
                     if key[0] == 'in' and key[4] != kpk:
                         continue
                     shown = (kpk in val) if key[0] == 'set' else bool(val)
                     if shown != (par == ppk):
                         if par == ppk and kpk not in ev['after']['K']:
                             continue        # the child row was deleted meanwhile: the cached child is stale, not contradictory
-                        fail('relationship-ends-disagree', 'K[%d].p read %r in step #%d, but %s in step #%d'
-                             % (kpk, par, pstep, ('iterating P[%d].kids gives %s' % (ppk, val)) if key[0] == 'set'
-                                else ('(K[%d] in P[%d].kids) is %r' % (kpk, ppk, val)), ev['step']))
+                        fail('relationship-ends-disagree', 'K[%d].%s read %r in step #%d, but %s in step #%d'
+                             % (kpk, ref, par, pstep, ('iterating %s[%d].%s gives %s' % (oent, ppk, ocoll, val)) if key[0] == 'set'
+                                else ('(K[%d] in %s[%d].%s) is %r' % (kpk, oent, ppk, ocoll, val)), ev['step']))
                 if key[0] == 'set':
-                    kids_seen.setdefault(ppk, (ev['step'], set(val)))
+                    kids_seen.setdefault(ref, {}).setdefault(ppk, (ev['step'], set(val)))
                     for kpk in val:
-                        pinned_p.setdefault(kpk, (ev['step'], ppk))      # iteration reads the children's reference
+                        pinned_p[ref].setdefault(kpk, (ev['step'], ppk))      # iteration reads the children's reference
                 elif val:
-                    pinned_p.setdefault(key[4], (ev['step'], ppk))
+                    pinned_p[ref].setdefault(key[4], (ev['step'], ppk))
             if tkey in first_seen_step:
                 reobserved.append((tkey, ev['step']))
             first_seen_step.setdefault(tkey, ev['step'])
